@@ -848,7 +848,11 @@ func CoqOp(op Op) string {
 	case "apply":
 		return vh.App("OApply", c, vh.N(op.Base), vh.ListOf(op.Recs, coqRec), coqCk(op.Ck), coqEp(op.Ep))
 	case "capp":
-		return vh.App("OCApp", c, vh.N(uint64(op.Mode)), vh.ListOf(op.Recs, coqRec))
+		m := op.Mode // Exec maps every mode >= 2 to AppendTrusted
+		if m > 2 {
+			m = 2
+		}
+		return vh.App("OCApp", c, vh.N(uint64(m)), vh.ListOf(op.Recs, coqRec))
 	case "cbatch":
 		return vh.App("OCBatch", vh.ListOf(op.Items, func(it Item) string {
 			return "(" + vh.N(uint64(it.C)) + ", " + vh.N(uint64(it.Mode)) + ", " + vh.ListOf(it.Recs, coqRec) + ")"
